@@ -124,7 +124,7 @@ var staleTmp = func() []byte {
 func TestC18(t *testing.T) {
 	env := kit.GetEnv()
 	rep := kit.NewReport("C18", env)
-	rep.Rule = "states: {0,1,2,5} routers x {0,1,2,5} mappings x 3 field-value flavours (empty, unicode, 4 kB, JSON-hostile strings; nil/present public info; offline flag; used/unused) plus 50 and 200 entries; previous file: absent, or the complete file of another state, optionally with a long partially written temporary file left by an earlier crashed shutdown; for each (previous, new) pair the real Stop() is run once to log its file-system steps, then re-run for EVERY crash point: before every step and at every byte offset of every write (states of 50/200 entries, and in the quick tier all writes above 6 kB: every offset in the first and last 1 kB of each write and every 97th in between); after each crash the real NewJSONFileStorage loads the image; plus save->load round trip of every state; non-trivial = crash points strictly inside a write or between steps of the save; distinct = distinct (previous, new, crash point)"
+	rep.Rule = "states: {0,1,2,5} routers x {0,1,2,5} mappings x 3 field-value flavours (empty, unicode, 4 kB, JSON-hostile strings; nil/present public info; offline flag; used/unused) plus 50 and 200 entries; previous file: absent, or the complete file of another state, optionally with a long partially written temporary file left by an earlier crashed shutdown; for each (previous, new) pair the real Stop() is run once to log its file-system steps, then re-run for EVERY crash point: before every step and at every byte offset of every write (states of 50/200 entries, and in the quick tier all writes above 6 kB: every offset in the first and last 1 kB of each write and every 97th in between); after each crash the real NewJSONFileStorage loads the image; plus save->load round trip of every state; plus restarted sessions: load an existing file, every sequence of <= 2 operations out of 13 (look-ups of known/unknown routers, save/delete of routers and mappings, queries, prune, nothing), shutdown, load - content equal to the content before shutdown; non-trivial = crash points strictly inside a write or between steps of the save; distinct = distinct (previous, new, crash point)"
 	rep.Assumptions = []string{
 		"crash model = process kill: completed file-system steps persist, an in-progress write persists an arbitrary prefix (the statement's model); power-loss reordering is out of scope",
 		"the storage package is compiled with its os import rewritten to the vos shim; if it uses an os API the shim lacks, the harness fails to build (exit 2) instead of passing",
@@ -287,6 +287,84 @@ func TestC18(t *testing.T) {
 	for _, sp := range bulk {
 		for _, pv := range prevs[:2] {
 			run(sp, pv, true)
+		}
+	}
+	// round trips of restarted sessions: a router loads an existing state file,
+	// performs up to two storage operations (including pure look-ups, which stamp
+	// the use time, and nothing at all), shuts down, and starts again.
+	type sop struct {
+		name string
+		do   func(s *storage.JSONFileStorage)
+	}
+	sops := []sop{
+		{"GetRouter(known)", func(s *storage.JSONFileStorage) { _, _ = s.GetRouter(fakeAddr(1 + 1000).IP) }},
+		{"GetRouter(all)", func(s *storage.JSONFileStorage) {
+			for i := 0; i < 5; i++ {
+				_, _ = s.GetRouter(fakeAddr(i + 1000).IP)
+			}
+		}},
+		{"GetRouter(unknown)", func(s *storage.JSONFileStorage) { _, _ = s.GetRouter(fakeAddr(777).IP) }},
+		{"SaveRouter(new)", func(s *storage.JSONFileStorage) {
+			_ = s.SaveRouter(&storage.StoredRouter{Address: fakeAddr(4242), Universe: "u", CreatedAt: time.Date(2021, 1, 2, 3, 4, 5, 6000, time.UTC)})
+		}},
+		{"SaveRouter(known)", func(s *storage.JSONFileStorage) {
+			_ = s.SaveRouter(&storage.StoredRouter{Address: fakeAddr(2 + 1000), Universe: "changed", Offline: true, CreatedAt: time.Date(2022, 1, 2, 3, 4, 5, 6000, time.UTC)})
+		}},
+		{"DeleteRouter(known)", func(s *storage.JSONFileStorage) { _ = s.DeleteRouter(fakeAddr(3 + 1000).IP) }},
+		{"SaveMapping(new)", func(s *storage.JSONFileStorage) { _ = s.SaveMapping("fresh.myco", fakeAddr(9).IP) }},
+		{"SaveMapping(known)", func(s *storage.JSONFileStorage) { _ = s.SaveMapping("name0-"+strFlavour(1, 0)+".myco", fakeAddr(99).IP) }},
+		{"DeleteMapping(known)", func(s *storage.JSONFileStorage) { _ = s.DeleteMapping("name1-" + strFlavour(1, 1) + ".myco") }},
+		{"QueryMappings", func(s *storage.JSONFileStorage) { _, _ = s.QueryMappings("name") }},
+		{"Prune(2)", func(s *storage.JSONFileStorage) { s.Prune(2) }},
+		{"Size", func(s *storage.JSONFileStorage) { _ = s.Size() }},
+		{"nothing", func(s *storage.JSONFileStorage) {}},
+	}
+	var seqs [][]int
+	seqs = append(seqs, nil)
+	for i := range sops {
+		seqs = append(seqs, []int{i})
+		for j := range sops {
+			seqs = append(seqs, []int{i, j})
+		}
+	}
+	for _, sq := range seqs {
+		caseNo++
+		if !env.Mine(caseNo) {
+			continue
+		}
+		vos.Reset()
+		s0, err := load()
+		if err != nil {
+			t.Fatal(err)
+		}
+		populate(s0, spec{"p", 5, 2, 1})
+		if err := s0.Stop(); err != nil {
+			t.Fatal(err)
+		}
+		s1, err := load()
+		if err != nil {
+			t.Fatal(err)
+		}
+		var names []string
+		for _, oi := range sq {
+			sops[oi].do(s1)
+			names = append(names, sops[oi].name)
+		}
+		want := contentOf(s1)
+		evals++
+		nontrivial++
+		if err := s1.Stop(); err != nil {
+			rep.Violate("session/save-failed", fmt.Sprintf("%v after %v", err, names), names)
+			continue
+		}
+		s2, err := load()
+		switch {
+		case err != nil:
+			rep.Violate("session/load-failed", fmt.Sprintf("state does not load after a session with operations %v: %v", names, err), names)
+		case contentOf(s2) != want:
+			rep.Violate("session/content-differs", fmt.Sprintf("state differs after load, operations %v, shutdown, load (first difference near %q)", names, firstDiff(contentOf(s2), want)), names)
+		default:
+			rep.Outcome("session-roundtrip/ok")
 		}
 	}
 	rep.Bounds["states"] = len(specs) + len(bulk)
